@@ -265,8 +265,16 @@ func sourceCreateCancelReleases(repo string) bool {
 	}
 	found := false
 	ast.Inspect(af, func(n ast.Node) bool {
-		if fd, ok := n.(*ast.FuncDecl); ok && fd.Name.Name == "releaseWhenReady" {
-			found = true
+		// the call site inside acquire, not just the helper's existence
+		if fd, ok := n.(*ast.FuncDecl); ok && fd.Name.Name == "acquire" && fd.Body != nil {
+			ast.Inspect(fd.Body, func(m ast.Node) bool {
+				if ce, ok := m.(*ast.CallExpr); ok {
+					if se, ok := ce.Fun.(*ast.SelectorExpr); ok && se.Sel.Name == "releaseWhenReady" {
+						found = true
+					}
+				}
+				return true
+			})
 		}
 		return true
 	})
